@@ -2,11 +2,11 @@
  * KSI_ERR_toString (ksi_err_toPrinter + printer_buf_wrapper), with the real KSI_strncpy / KSI_vsnprintf
  * (compatibility.c) and the vsnprintf contract model (any int).
  * The context is set up as KSI_CTX_new does for the ring (base.c: errors_size = KSI_ERR_STACK_LEN, errors =
- * KSI_malloc(sizeof(KSI_ERR) * errors_size), errors_count = 0); the rest of KSI_CTX_new (trust store, network
+ * KSI_malloc(sizeof(KSI_ERR) * errors_size), errors_count = 0) except that errors_size = RING (see below); the rest of KSI_CTX_new (trust store, network
  * providers, global init) is not executed.  errors_count then starts at START (concrete per instance: the ring
  * position is a shape; a separate instance leaves it symbolic) and NPUSH errors are pushed with symbolic
  * status / line / external code and short symbolic file name and message (or NULL).
- * Checked: every push lands in slot (count mod 16) with its fields and NUL-terminated strings, the count grows by
+ * Checked: every push lands in slot (count mod ring size) with its fields and NUL-terminated strings, the count grows by
  * one per non-OK push, nothing outside the ring or the output buffer is touched, rendering terminates. */
 #include "verif.h"
 #include "internal.h"
@@ -22,13 +22,19 @@
 #define BUFSZ 24
 #endif
 #define SL 3   /* length of the symbolic strings */
+/* RING: number of ring entries.  KSI_CTX_new uses KSI_ERR_STACK_LEN = 16; all ring code reads the size from
+ * ctx->errors_size.  A 16-entry ring is a 33 KiB object whose bit-level encoding exhausts memory (measured 7 GB,
+ * no answer in 5 min), so the instances use 1..3 entries; stated in the manifest. */
+#ifndef RING
+#define RING 2
+#endif
 
 static struct KSI_CTX_st C;
 
 void harness(void) {
 	KSI_CTX *ctx = &C;
 	memset(&C, 0, sizeof(C));
-	C.errors_size = KSI_ERR_STACK_LEN;
+	C.errors_size = RING;
 	C.errors = malloc(sizeof(KSI_ERR) * C.errors_size);
 	ASSUME(C.errors != NULL);
 #ifdef START_SYMBOLIC
@@ -51,9 +57,9 @@ void harness(void) {
 	}
 	CHECK(C.errors_count == start + NPUSH, "C12.errpush every push increments the error count");
 #ifndef START_SYMBOLIC
-	for (unsigned k = 0; k < NPUSH; k++) {
-		const KSI_ERR *e = &C.errors[(start + k) % KSI_ERR_STACK_LEN];
-		CHECK(e->statusCode == st[k] && e->extErrorCode == ext[k] && e->lineNr == ln[k], "C12.errpush slot (count mod 16) holds status, external code and line");
+	for (unsigned k = 0; k < NPUSH; k++) if (k + RING >= NPUSH) {   /* entries not yet overwritten by a later push */
+		const KSI_ERR *e = &C.errors[(start + k) % RING];
+		CHECK(e->statusCode == st[k] && e->extErrorCode == ext[k] && e->lineNr == ln[k], "C12.errpush slot (count mod ring size) holds status, external code and line");
 		int same = 1, term = 0;
 		for (unsigned i = 0; i <= SL; i++) {
 			char wm = nomsg[k] ? 0 : msg[k][i];
